@@ -39,9 +39,12 @@ fn gen_string(r: &mut Rng) -> String {
     // every 40th string is within the protocol's 32767 UTF-16 units but beyond 32767 BYTES of UTF-8
     let k = STRINGS.fetch_add(1, std::sync::atomic::Ordering::Relaxed);
     if k % 40 == 39 { return match (k / 40) % 3 { 0 => "\u{e4}".repeat(16_384), 1 => "\u{20ac}".repeat(10_923), _ => "a".repeat(32_767) }; }
-    match r.below(8) {
+    match r.below(10) {
         0 => String::new(),
         1 => r.utf8(300),
+        // shapes a "normalising" reader or writer would alter: a trailing root dot, surrounding blanks, upper case, a NUL
+        8 => r.pick(&["play.example.com.", ".", " padded ", "MiXeD.Example.ORG", "host\u{0}FML3\u{0}", "tab\tend\n", "::ffff:10.1.2.3"]).to_string(),
+        9 => format!("{}.", r.utf8(12)),
         2 => "a".repeat(*r.pick(&[127usize, 128, 129, 255, 256, 16383, 16384])),
         _ => r.utf8(20),
     }
@@ -259,6 +262,18 @@ fn err_name(e: &Error) -> &'static str {
     }
 }
 
+/// a reader that returns at most `chunk` bytes per read
+struct Chunked<'a> { data: &'a [u8], pos: usize, chunk: usize }
+impl<'a> tokio::io::AsyncRead for Chunked<'a> {
+    fn poll_read(mut self: std::pin::Pin<&mut Self>, _cx: &mut std::task::Context<'_>, buf: &mut tokio::io::ReadBuf<'_>) -> std::task::Poll<std::io::Result<()>> {
+        let n = self.chunk.min(self.data.len() - self.pos).min(buf.remaining());
+        let (a, b) = (self.pos, self.pos + n);
+        buf.put_slice(&self.data[a..b]);
+        self.pos = b;
+        std::task::Poll::Ready(Ok(()))
+    }
+}
+
 /// decode `bytes` with the real reader; Gallina `dres` term + largest allocation request
 fn decode_obs<T: Pk>(bytes: &[u8]) -> (String, usize) {
     let data = bytes.to_vec();
@@ -332,7 +347,15 @@ fn run_type<T: Pk>(r: &mut Rng, n_rt: usize, n_dec: usize) {
             let r = T::read_from_buffer(&mut cur).await;
             (r, cur.position() as usize == cur.get_ref().len())
         });
-        let impl_ok = matches!(&back, (Ok(b), true) if *b == v);
+        // the same bytes through a reader that hands out only a few bytes per read (a frame straddling TCP segments, any
+        // AsyncRead that returns less than was asked for): the decoded value must be the same
+        let chunk = *r.pick(&[1usize, 2, 3, 7, 100, 1000]);
+        let back2 = block_on(async {
+            let mut rd = Chunked { data: &enc, pos: 0, chunk };
+            let r = T::read_from_buffer(&mut rd).await;
+            (r, rd.pos == enc.len())
+        });
+        let impl_ok = matches!(&back, (Ok(b), true) if *b == v) && matches!(&back2, (Ok(b), true) if *b == v);
         emit_case("RT", &format!("(RT {} {} {} {})", T::IDENT, g_list(&v.fv()), g_hex(&enc), g_bool(impl_ok)));
         for _ in 0..n_dec {
             let m = mutate(r, &enc);
